@@ -102,6 +102,8 @@ type c10Op struct {
 	// policy
 	Cpus int32 `json:"cpus,omitempty"`
 	Pool []int `json:"pool,omitempty"`
+	// panic (replay only): the op that crashed, with its arguments
+	In string `json:"in,omitempty"`
 }
 
 func c10Ints(a []int) []int {
@@ -375,6 +377,9 @@ func c10Run(e *c10Env, rec *vu.Recorder, script []c10Op) {
 	defer close(st.stop)
 	rec.Reset(e.resetEvent(script[0]))
 	for _, o := range script[1:] {
+		if o.Op == "panic" { // replaying a recorded crash: re-execute the op that crashed
+			o.Op = o.In
+		}
 		ev := vu.Ev{"op": o.Op}
 		panicked, msg := vu.Protect(func() {
 			switch o.Op {
@@ -449,8 +454,9 @@ func c10Run(e *c10Env, rec *vu.Recorder, script []c10Op) {
 			if strings.HasPrefix(msg, "harness:") {
 				panic(msg)
 			}
-			// "never crashes the agent": the specification has no such step
-			rec.Emit(vu.Ev{"op": "panic", "in": o.Op, "msg": msg})
+			// "never crashes the agent": the specification has no such step (the event keeps the op's arguments for replay)
+			ev["op"], ev["in"], ev["msg"] = "panic", o.Op, msg
+			rec.Emit(ev)
 			return
 		}
 		rec.Emit(ev)
